@@ -479,7 +479,7 @@ def mkjob(jid, sampler, label, kw, rkw, tier, seed, stream="valid", model="gauss
     run_kwargs = {"plot": False, "save": False}
     run_kwargs.update(rkw)
     return {"id": jid, "sampler": sampler, "label": label, "stream": stream, "kwargs": kwargs, "run_kwargs": run_kwargs,
-            "model": model, "seed": seed, "wall": 100 if tier == "quick" else 240,
+            "model": model, "seed": seed, "wall": 100 if tier == "quick" else 240,      # budget in CPU seconds of the worker
             "draw_cap": 300_000, "like_cap": 100_000, "stall_cap": 300, "max_traces": 8}
 
 
@@ -587,7 +587,9 @@ def failure_key(job, r):
             where = [f"{m.group(1)}:{m.group(2)}" for m in fr if m][::-1] or ["?"]
         last = where[-1]
         loop = next((w for w in reversed(where) if w.endswith((":populate", ":draw", ":_train"))), last)
-        return (f"C20:no-termination:{loop}:{label}",
+        # the identity of a no-termination finding is the sampler and the option values only: WHERE the cap happened
+        # to land (which loop, which frame the wall clock sampled) depends on load and goes into the description
+        return (f"C20:no-termination:{sampler}:{label}",
                 f"{sampler} run with {label}: {st} ({r.get('exc_msg', 'wall-clock cap')}) in {loop}; "
                 f"loop stats {r.get('loop_stats')}")
     if st == "raised":
@@ -1360,7 +1362,7 @@ def replay(data):
         job = dict(rp["job"])
         outdir = f"/tmp/c20_replay_{os.getpid()}"
         inp = json.dumps({"outdir": outdir, "parallel": 1, "jobs": [job]})
-        r = subprocess.run(["timeout", "-k", "5", str(job.get("wall", 150) + 60), common.PY,
+        r = subprocess.run(["timeout", "-k", "5", str(4 * job.get("wall", 150) + 60), common.PY,
                             os.path.join(common.VERIF, "harness", "c20_child.py"), "runs"],
                            input=inp, capture_output=True, text=True, env=common.child_env())
         subprocess.run(["rm", "-rf", outdir])
